@@ -634,6 +634,17 @@ func castArr(opts *options, v value) ([]value, Error) {
 			return nil, raiseMissingMsg(ref.ctx.getParent(), ref.ctx.field, err.Error())
 		}
 
+		// the referenced setting can be a reference itself
+		for {
+			next, ok := unrefed.(*cfgDynamic)
+			if !ok {
+				break
+			}
+			if unrefed, err = next.getValue(opts); err != nil {
+				return nil, raiseMissingMsg(next.ctx.getParent(), next.ctx.field, err.Error())
+			}
+		}
+
 		if sub, ok := unrefed.(cfgSub); ok {
 			return sub.c.fields.array(), nil
 		}
